@@ -75,9 +75,22 @@ func (s *memoryStore) GetNodeBalance(nodeID store.NodeID) (store.Balance, error)
 
 	account, ok := s.accounts[nodeID]
 	if !ok {
-		return s.trials[nodeID], nil
+		return copyBalance(s.trials[nodeID]), nil
 	}
-	return s.balances[account], nil
+	return copyBalance(s.balances[account]), nil
+}
+
+// copyBalance returns a copy of the balance which does not share the
+// big.Int storage of the stored value, so that later additions to the stored
+// balance don't alter balances that were already returned.
+func copyBalance(b store.Balance) store.Balance {
+	r := store.Balance{
+		Account:      b.Account,
+		NextWithdraw: b.NextWithdraw,
+	}
+	r.Deposit.Set(&b.Deposit)
+	r.Credit.Set(&b.Credit)
+	return r
 }
 
 // AddNodeBalance adds some credit amount to a node's account balance. (Can be negative)
@@ -112,7 +125,7 @@ func (s *memoryStore) AddNodeBalance(nodeID store.NodeID, credit *big.Int) error
 func (s *memoryStore) GetAccountBalance(account store.Account) (store.Balance, error) {
 	s.mu.Lock()
 	defer s.mu.Unlock()
-	return s.balances[account], nil
+	return copyBalance(s.balances[account]), nil
 }
 
 // AddNodeBalance adds credit to an account balance. (Can be negative)
